@@ -275,3 +275,72 @@ def splitSliceBoundsOld (sizes : List Nat) (a b : Option Int) : Nat × Nat × Na
   splitFrom sizes (match a with | none => 0 | some s => pyMod s n) (match b with | none => n | some s => pyMod s n)
 
 end LinOp.C03
+
+namespace LinOp.C03
+
+/-! ## Model of `_convert_indices_to_tensors` (read side)
+
+The library turns every index into a tensor index padded with singleton dims so that all of them broadcast to the
+final result shape.  `num_singletons_before` (`nsb`) is the result dim a converted slice occupies; the tensor
+indices occupy the `k` dims starting at `num_singletons_before_tensor` (`tstart`).  Indexing with the converted
+tuple therefore reads, for result coordinate `r`, the source index computed by `convGo`. -/
+
+def convGo (k : Nat) : Nat → Option Nat → List (Nat × Item) → List Nat → List Nat
+  | _, _, [], _ => []
+  | nsb, ts, (n, .int i) :: rest, r => wrap n i :: convGo k nsb ts rest r
+  | nsb, ts, (n, .slice a _ c) :: rest, r => (sliceStart n a + r.getD nsb 0 * sliceStep c) :: convGo k (nsb + 1) ts rest r
+  | nsb, ts, (_, .ellipsis) :: rest, r => r.getD nsb 0 :: convGo k (nsb + 1) ts rest r
+  | nsb, none, (n, .tensor sh vs) :: rest, r =>
+      wrap n (tensorAt sh vs ((r.drop nsb).take k)) :: convGo k (nsb + k) (some nsb) rest r
+  | nsb, some tb, (n, .tensor sh vs) :: rest, r =>
+      wrap n (tensorAt sh vs ((r.drop tb).take k)) :: convGo k nsb (some tb) rest r
+
+/-- source multi-index read at result coordinate `r` by `x[_convert_indices_to_tensors(x, idx)]`;
+`k` = rank of the broadcast tensor-index shape -/
+def convSrc (k : Nat) (zi : List (Nat × Item)) (r : List Nat) : List Nat :=
+  if movedToStart (zi.map (·.2.kind)) then convGo k k (some 0) zi r else convGo k 0 none zi r
+
+/-- source multi-index torch reads at result coordinate `r` (the spec; same split of `r` as `specElems`) -/
+def specSrc (k : Nat) (zi : List (Nat × Item)) (r : List Nat) : List Nat :=
+  let p := if (tensorShapes zi).isEmpty then 0 else specPos (zi.map (·.2.kind))
+  srcIndex zi (r.take p ++ r.drop (p + k)) ((r.drop p).take k)
+
+/-- row-major flat offsets read through the converted all-tensor index -/
+def convElems (dims : List Nat) (zi : List (Nat × Item)) : List Nat :=
+  (box (specShape zi)).map fun r => flatIndex dims (convSrc (bcAll (tensorShapes zi)).length zi r)
+
+end LinOp.C03
+
+namespace LinOp.C03
+
+/-! ## `__getitem__` through `_get_indices` (matrix dims absorbed by tensor indices), unbatched operator
+
+`cls i j` is the class's `_get_indices` arithmetic for one (row, col) pair; `__getitem__` feeds it the converted
+indices (`convSrc`) for every result coordinate. -/
+
+def getitemViaGetIndices (cls : Nat → Nat → Int) (zi : List (Nat × Item)) : List Int :=
+  (box (specShape zi)).map fun r =>
+    let s := convSrc (bcAll (tensorShapes zi)).length zi r
+    cls (s.getD 0 0) (s.getD 1 0)
+
+/-- torch indexing of the dense matrix `dense` (spec) -/
+def denseGetitem (dense : Nat → Nat → Int) (zi : List (Nat × Item)) : List Int :=
+  (box (specShape zi)).map fun r =>
+    let s := specSrc (bcAll (tensorShapes zi)).length zi r
+    dense (s.getD 0 0) (s.getD 1 0)
+
+/-- `DiagLinearOperator._get_indices`: `diag[row] * (row == col)` -/
+def diagGet (d : Nat → Int) (i j : Nat) : Int := d i * (if i == j then 1 else 0)
+
+/-- `BlockDiagLinearOperator._get_indices` for square-or-rectangular blocks `m × n` -/
+def blockDiagGet (m n : Nat) (Bs : List (Nat → Nat → Int)) (i j : Nat) : Int :=
+  if (blockDiagIdx m n i j).2.2.2 then
+    (Bs.getD (blockDiagIdx m n i j).1 (fun _ _ => 0)) (blockDiagIdx m n i j).2.1 (blockDiagIdx m n i j).2.2.1
+  else 0
+
+/-- `CatLinearOperator._get_indices` along the rows: piece by `idx_to_tensor_idx`, local row by the cumulative offset -/
+def catRowsGet (pieces : List ((Nat → Nat → Int) × Nat)) (i j : Nat) : Int :=
+  let pl := catLocate (pieces.map (·.2)) i
+  (pieces.getD pl.1 (fun _ _ => 0, 0)).1 pl.2 j
+
+end LinOp.C03
